@@ -212,7 +212,7 @@ def analyse_kernel(F, R, kb, hit, wb, call_t):
                 R.info("C08-R1", "%s parameter `%s` over %d call sites: %s" % (name, pb[ai - 1][1], len(vals), _absshow(env[bid])))
     # the element closure(s): closures whose tuple parameter has as many elements as zipped operands
     sink_fields = {}
-    clos = [x for x in hir_walk(kb.hir["value"]) if x.get("k") == "MethodCall" and x.get("method") == "for_each"]
+    clos = [v_ for v_ in (K.for_each_view(x) for x in hir_walk(kb.hir["value"])) if v_ is not None]
     if not clos:
         R.bad("C08-R1", "%s:closure" % kb.path, site, "no element loop found in %s" % name)
         return
@@ -496,7 +496,7 @@ def r8(F, R):
         pb = K.param_bindings(kb)
         pid2idx = {bid: i for i, (bid, _n) in enumerate(pb)}
         done = False
-        for fe in [x for x in hir_walk(kb.hir["value"]) if x.get("k") == "MethodCall" and x.get("method") == "for_each"]:
+        for fe in [v_ for v_ in (K.for_each_view(x) for x in hir_walk(kb.hir["value"])) if v_ is not None]:
             clo = K.peel(fe["args"][0])
             if clo.get("k") != "Closure":
                 continue
